@@ -2,8 +2,9 @@
 (* C17, second half: the NameEntry merge algebra and the five Update*Name sources.
 
    Mode "pairs": every pair (e, n) of name entries over the attributes Name, Model, OS, Manufacturer
-   with values {"", a, b} is one initial state; the lemmas NoErase, ChangeIff, Idempotent are
-   invariants (checked by TLC on all 3^4 * 3^4 = 6561 pairs) and each pair is exported with the
+   with values {"", a, A, b} (A is the upper-case spelling of a: a distinct value that differs only in
+   letter case; ValSet "full" adds "a." , the same name with a trailing dot) is one initial state; the lemmas NoErase, ChangeIff, Idempotent are
+   invariants (checked by TLC on all 4^4 * 4^4 = 65536 pairs) and each pair is exported with the
    reference result.
 
    Mode "hosts": two hosts of one MAC address, five naming sources.  Actions: Update(h, s, n)
@@ -16,10 +17,11 @@ EXTENDS Naturals, Sequences, FiniteSets, TLC, Json
 
 CONSTANTS Mode,       \* "pairs" | "hosts"
           MaxDepth,   \* hosts mode: length of the update histories
-          UpdSet      \* hosts mode: "small" | "full": the name entries used by Update
+          UpdSet,     \* hosts mode: "small" | "full": the name entries used by Update
+          ValSet      \* "small" | "full": the attribute values
 
 Attrs  == {"Name", "Model", "OS", "Manufacturer"}
-Vals   == {"", "a", "b"}
+Vals   == {"", "a", "A", "b"} \cup (IF ValSet = "full" THEN {"a."} ELSE {})
 Entry  == [Attrs -> Vals]
 Empty  == [x \in Attrs |-> ""]
 Hosts  == {"h1", "h2"}
@@ -43,8 +45,8 @@ VARIABLES pe, pn,                       \* pairs mode
 vars == <<pe, pn, host, mac, dirty, known, changed, depth, hist>>
 
 E(n, mo, os, ma) == [x \in Attrs |-> CASE x = "Name" -> n [] x = "Model" -> mo [] x = "OS" -> os [] OTHER -> ma]
-Updates == {E("a", "", "", ""), E("b", "", "", ""), E("", "a", "", ""), E("a", "", "b", "a")}
-           \cup (IF UpdSet = "full" THEN {Empty, E("", "", "", "b"), E("b", "b", "", "")} ELSE {})
+Updates == {E("a", "", "", ""), E("A", "", "", ""), E("b", "", "", ""), E("", "a", "", ""), E("a", "", "b", "a")}
+           \cup (IF UpdSet = "full" THEN {Empty, E("", "", "", "b"), E("", "A", "", "")} ELSE {})
 Slots0 == [s \in Srcs |-> Empty]
 
 Init == /\ depth = 0 /\ hist = <<>>
